@@ -1,10 +1,10 @@
 SPECIFICATION Spec
 CONSTANTS
-  NF = 1
+  NF = 2
   MaxLen = 60
-  Kinds = {"mod", "modeonly", "add"}
+  Kinds = {"mod", "modeonly", "bin", "modebin", "renmode", "del"}
   MaxHunks = 2
-  MaxBody = 5
+  MaxBody = 3
   Preamble = TRUE
   MaxConf = 1
   Buf = 1
